@@ -243,6 +243,10 @@ def run(run: Run) -> None:
     for n in ((5, 6) if quick else (5, 6, 7, 8)):
         for kind in ("sq", "budget"):
             us.append((n, f"layer-{kind}", A.shifted(layered_game(n, kind), (1, -1, 2, 0, 3, -2, 1, 0)[:n]), ("dirty",) if n == 5 else (), 0.0))
+    for i, g in enumerate(A.a5_pair_closure_reps()):
+        if quick and i % 3 != seed % 3:
+            continue
+        us.append((5, f"pairgraph#{i}", A.shifted(g, (1, -1, 2, 0, 3)), (), 0.0))
     # non-superadditive inputs are inside "every incomplete game on which both are defined": all of A3-ANY
     for i, g in enumerate(A.a3_any()):
         if quick and i % 3 != seed % 3:
